@@ -2,6 +2,7 @@ package main
 
 import (
 	"go/token"
+	"strings"
 
 	"golang.org/x/tools/go/ssa"
 )
@@ -234,6 +235,8 @@ func (f *Flow) edgeFacts(from *ssa.BasicBlock, succIdx int, out Facts) Facts {
 			}
 			res.Add(a)
 			addConjuncts(res, a)
+			// what a validator's verdict implies is materialised here, so that later writes kill it fact by fact
+			f.addDerived(res, a)
 		}
 	}
 	// loop normal exit: add the generalised facts
@@ -299,7 +302,18 @@ func (f *Flow) transfer(in ssa.Instruction, facts Facts) {
 			if _, isB := c.Value.(*ssa.Builtin); !isB {
 				t := f.C.Term(v)
 				if t.Op == "call" || t.Op == "calldyn" {
-					facts.Add(&Atom{Pred: "done", Args: []*Term{t}, Site: f.A.P.InstrPos(in)})
+					// executing the same (effectful) call again yields a new value: forget what was known about the old one
+					if !f.A.instrEffectFree(in, f.A.effectFree) {
+						tk := t.Key()
+						for k, a := range facts {
+							if strings.Contains(a.Key(), tk) {
+								delete(facts, k)
+							}
+						}
+					}
+					d := &Atom{Pred: "done", Args: []*Term{t}, Site: f.A.P.InstrPos(in)}
+					facts.Add(d)
+					f.addDerived(facts, d)
 				}
 			}
 		}
@@ -327,6 +341,51 @@ func (f *Flow) out(b *ssa.BasicBlock) Facts {
 		f.transfer(instr, facts)
 	}
 	return facts
+}
+
+func (f *Flow) addDerived(facts Facts, a *Atom) {
+	work := []*Atom{a}
+	for depth := 0; depth < 5 && len(work) > 0; depth++ {
+		var next []*Atom
+		for _, x := range work {
+			for _, d := range f.A.expand(x) {
+				if _, ok := facts[d.Key()]; ok {
+					continue
+				}
+				if d.Site == "" {
+					d.Site = x.Site
+				}
+				facts.Add(d)
+				addConjuncts(facts, d)
+				next = append(next, d)
+			}
+		}
+		work = next
+	}
+}
+
+func (f *Flow) isPureCallTerm(t *Term) bool {
+	if t.Op != "call" {
+		return false
+	}
+	fs := f.A.funcsByShort()[t.Name]
+	if len(fs) == 0 {
+		// SPI / external: pure when it is a known reader
+		i := strings.LastIndex(t.Name, ".")
+		if i >= 0 {
+			n := t.Name[i+1:]
+			if strings.HasPrefix(n, "Get") || strings.HasPrefix(n, "Verify") || n == "ValidateBlockCommitment" || n == "Err" || n == "MyMemberId" {
+				return true
+			}
+		}
+		return false
+	}
+	for _, fn := range fs {
+		if !f.A.effectFree[fn] {
+			return false
+		}
+	}
+	return true
 }
 
 // DeadEdges: CFG edges that are infeasible under the assumptions / known facts (after convergence).
@@ -420,6 +479,9 @@ func (f *Flow) run() {
 		// recompute loop exit facts from the latch outs
 		for _, l := range li.Loops {
 			ex := f.computeLoopExit(l, outs)
+			for _, at := range ex.Clone() {
+				f.addDerived(ex, at)
+			}
 			old := f.loopExit[l]
 			if !old.Equal(ex) {
 				f.loopExit[l] = ex
